@@ -6,6 +6,7 @@ import (
 	"fmt"
 	"go/token"
 	"go/types"
+	"os"
 	"sort"
 	"strings"
 
@@ -1228,8 +1229,39 @@ func (la *lockAnalysis) calleesOf(cs callSite) []*ssa.Function {
 	var out []*ssa.Function
 	if n := la.p.callGraph().g.Nodes[cs.fn]; n != nil {
 		for _, e := range n.Out {
-			if e.Site == cs.instr && la.fns[e.Callee.Func] != nil {
+			if e.Site != cs.instr {
+				continue
+			}
+			if la.fns[e.Callee.Func] != nil {
 				out = append(out, e.Callee.Func)
+				continue
+			}
+			// a synthetic wrapper (bound method value, thunk) is not analysed itself: what it calls is
+			out = append(out, la.throughWrapper(e.Callee.Func, 0)...)
+		}
+	}
+	return out
+}
+
+// throughWrapper: the analysed functions a synthetic wrapper forwards to (r.checkFn stored as a method
+// value is called through rib.(*RIB).checkFn$bound).
+func (la *lockAnalysis) throughWrapper(f *ssa.Function, depth int) []*ssa.Function {
+	if f == nil || f.Synthetic == "" || depth > 2 {
+		return nil
+	}
+	var out []*ssa.Function
+	for _, b := range f.Blocks {
+		for _, in := range b.Instrs {
+			call, ok := in.(ssa.CallInstruction)
+			if !ok {
+				continue
+			}
+			if sc := call.Common().StaticCallee(); sc != nil {
+				if la.fns[sc] != nil {
+					out = append(out, sc)
+				} else {
+					out = append(out, la.throughWrapper(sc, depth+1)...)
+				}
 			}
 		}
 	}
@@ -1361,6 +1393,16 @@ func ruleLockOrder(c *Ctx, groupPrefix string) {
 			nEdges++
 		}
 		c.Sites += len(edges)
+		if os.Getenv("GRIBILINT_DEBUG_EDGES") != "" {
+			for f := range la.fns {
+				if strings.Contains(f.Name(), "Removable") || f.Name() == "canDelete" || f.Name() == "DeleteNextHopGroup" {
+					fmt.Fprintf(os.Stderr, "FN %s reach=%v acqs=%d calls=%d\n", f.String(), reach[f], len(la.fns[f].acqs), len(la.fns[f].calls))
+				}
+			}
+			for _, e := range edges {
+				fmt.Fprintf(os.Stderr, "EDGE [%s] %s(%s)→%s(%s) via %s\n", g.name, e.from, e.fromMode, e.to, e.toMode, e.via)
+			}
+		}
 		// self loops
 		bad := 0
 		for cls, es := range adj {
